@@ -26,6 +26,8 @@ CONSTANTS MaxLen,      \* documents up to this many bytes
           PinD8,       \* TRUE: final empty field after a trailing delimiter at EOF is lost
           PinD12,      \* TRUE: skipping CR in a quoted field skips the look-ahead pre-copy
           PinD18,      \* TRUE: the quoted-field look-ahead asks for more only once
+          WithFault,   \* TRUE: the io.Reader fails (non-EOF error) at some byte offset: every offset is explored (C15)
+          PinD7,       \* TRUE: io.ReadCSV does not look at the reader's error after its row loop
           Emit         \* TRUE: print one scenario per finished behaviour
 
 DELIM == 44
@@ -84,7 +86,8 @@ Step(st) ==
              trimmed == IF Len(f) > 0 /\ Len(Last(f)) > 0 /\ Last(Last(f)) = CR
                         THEN [f EXCEPT ![Len(f)] = Front(Last(f))] ELSE f
          IN IF Len(f) = 0 THEN [st EXCEPT !.ferr = IF st.ferr = "none" THEN "eof" ELSE st.ferr, !.pc = "Done"]
-            ELSE [st EXCEPT !.rows = Append(st.rows, trimmed), !.pc = "NextRow"]
+            ELSE [st EXCEPT !.rows = Append(st.rows, trimmed), !.pc = "NextRow",
+                            !.rowWithErr = st.rowWithErr \/ st.ferr = "io"]   \* io.ReadCSV checks r.Err() in its loop body
 
 RECURSIVE Run(_)
 Run(st) == IF st.pc \in MorePCs \cup {"Done"} THEN st ELSE Run(Step(st))
@@ -102,6 +105,8 @@ OnEOF(st) ==
          THEN [AddField(st, Sub(st.buf, st.qstart, st.wc)) EXCEPT !.cursor = st.cursor + 1, !.fieldStart = st.cursor + 1, !.pc = "FieldsNext"]
          ELSE [AddField(st, Sub(st.buf, st.qstart, st.wc)) EXCEPT !.hitEOL = TRUE, !.ferr = "eof",
                                                             !.fieldStart = st.cursor, !.pc = "FieldsNext"]
+\* more() returned an error other than io.EOF: no field is produced, the row loop ends
+OnIOErr(st) == [st EXCEPT !.ferr = "io", !.fired = TRUE, !.pc = "RowEnd"]
 \* more() delivered bytes
 OnData(st) == [st EXCEPT !.pc = CASE st.pc = "MoreFN" -> "FieldsNext" [] st.pc = "MoreU" -> "U" [] st.pc = "MoreQ" -> "Q",
                          !.looked = (st.pc = "MoreQ")]
@@ -113,22 +118,29 @@ More ==
          space == Len(grown) - s.n
          rem == Len(s.doc) - s.pos
          g == [s EXCEPT !.buf = grown]
-     IN IF rem = 0 THEN s' = Run(OnEOF(g))
-        ELSE \E k \in 1..Min2(space, rem) :
+         room == IF s.fault >= 0 THEN Min2(rem, s.fault - s.pos) ELSE rem
+     IN IF s.fault = s.pos THEN s' = Run(OnIOErr(g))
+        ELSE IF rem = 0 THEN s' = Run(OnEOF(g))
+        ELSE \E k \in 1..Min2(space, room) :
                s' = Run(OnData([g EXCEPT !.buf = [i \in 1..Len(grown) |-> IF i > g.n /\ i <= g.n + k THEN g.doc[g.pos + i - g.n] ELSE grown[i]],
                                           !.n = g.n + k, !.pos = g.pos + k, !.reads = Append(g.reads, k)]))
 
-Init == \E d \in Docs, c \in Caps :
-  s = Run([doc |-> d, pos |-> 0, buf |-> [i \in 1..c |-> 0], n |-> 0, cap0 |-> c, reads |-> <<>>,
+Init == \E d \in Docs, c \in Caps : \E flt \in (IF WithFault THEN 0..Len(d) ELSE {-1}) :
+  s = Run([doc |-> d, pos |-> 0, fault |-> flt, fired |-> FALSE, rowWithErr |-> FALSE, buf |-> [i \in 1..c |-> 0], n |-> 0, cap0 |-> c, reads |-> <<>>,
            cursor |-> 0, fieldStart |-> 0, hitEOL |-> FALSE, ferr |-> "none", pc |-> "NextRow", looked |-> FALSE,
            uc |-> 0, qstart |-> 0, wc |-> 0, qc |-> 0, fields |-> <<>>, rows |-> <<>>])
 Next == More
 Spec == Init /\ [][Next]_s
 
-Faithful == s.pc = "Done" => (s.rows = Denote(s.doc, DELIM, TRUE) \/ s.rows = Denote(s.doc, DELIM, FALSE))
+Complete(st) == st.rows = Denote(st.doc, DELIM, TRUE) \/ st.rows = Denote(st.doc, DELIM, FALSE)
+Faithful == (s.pc = "Done" /\ ~s.fired) => Complete(s)
+\* C15, read side: what io.ReadCSV reports - an error seen in the loop body, or (repaired) after the loop
+Reported(st) == st.rowWithErr \/ (st.ferr = "io" /\ ~PinD7)
+FaultReported == (s.pc = "Done" /\ s.fired) => Reported(s)
+ErrorFreeIsComplete == (s.pc = "Done" /\ ~Reported(s)) => Complete(s)
 
 \* scenario emission: document, initial capacity and read schedule of every finished behaviour
-EmitScn == (Emit /\ s.pc = "Done" /\ Len(s.reads) >= 1) =>
+EmitScn == (Emit /\ s.pc = "Done" /\ Len(s.reads) >= 1 /\ s.fault < 0) =>
              PrintT(<<"SCN", ToJson([steps |-> << [op |-> "CsvScan", recv |-> -1, doc |-> s.doc, reads |-> s.reads,
                                                    csv |-> [bufcap |-> s.cap0]] >>])>>)
 =============================================================================
